@@ -310,7 +310,7 @@ func genHist(e *emitter, tier string, prop string) {
 	for _, c := range confs {
 		e.line(sexpConf(c))
 	}
-	n := 800
+	n := 1600
 	if tier == "thorough" {
 		n = 24000
 	}
